@@ -658,6 +658,26 @@ func c14Worker(w *core.WorkerCtx) {
 		}
 		sources := append([]*ledger.Node{}, world.Nodes...)
 		for _, src := range sources {
+			// what the peer's replay routine can still admit is admitted first (through the hook that makes one replay
+			// step), so that the peer's ledger stands still while nodes sync from it and are compared with it
+			for k := 0; k < 80; k++ {
+				ps, err := ledger.TakeSnap(src.Book)
+				if err != nil {
+					break
+				}
+				admissible := false
+				for _, pk := range ps.Parked {
+					_, lok := ps.Vertex(pk.Vertex.LeftParentHash)
+					_, rok := ps.Vertex(pk.Vertex.RightParentHash)
+					if lok && rok {
+						admissible = true
+					}
+				}
+				if !admissible {
+					break
+				}
+				world.Retry(src)
+			}
 			st := recordStream(src)
 			ssnap, _ := ledger.TakeSnap(src.Book)
 			if len(st) != len(ssnap.Live) {
@@ -674,6 +694,10 @@ func c14Worker(w *core.WorkerCtx) {
 				world.EvalFor("C14", 1)
 				if !loaded {
 					world.Violate("C14", "permuted-stream-not-loaded", fmt.Sprintf("the peer's own vertices in another order were not loaded: %v", cause))
+				} else if now, err := ledger.TakeSnap(src.Book); err != nil || now.Digest() != ssnap.Digest() {
+					// the peer's own retry ticker admitted (or gave up on) a parked vertex since its stream was recorded:
+					// there is no fixed ledger to compare the loaded node with
+					w.R.Count("c14_comparisons_skipped_because_the_peer_moved", 1)
 				} else {
 					c14Compare(world, src, pn, "after loading the permuted stream of "+src.Name)
 				}
